@@ -75,6 +75,11 @@ impl HasData for Stor {
         Some(Stor(Val::new(v)))
     }
 }
+impl<T: HasData> HasData for std::sync::Arc<T> {
+    fn data(&self) -> Value {
+        (**self).data()
+    }
+}
 impl<T> HasData for Directory<T> {
     fn data(&self) -> Value {
         // Directory ids are specified sorted and duplicate-free: report them as stored
@@ -168,6 +173,8 @@ macro_rules! with_compound {
             "DL2" => { type $T = Directory<Leaf<2>>; $body }
             "RL0" => { type $T = RecursiveDirectory<Leaf<0>>; $body }
             "RL1" => { type $T = RecursiveDirectory<Leaf<1>>; $body }
+            "AL0" => { type $T = std::sync::Arc<Leaf<0>>; $body }
+            "AL2" => { type $T = std::sync::Arc<Leaf<2>>; $body }
             _ => $else,
         }
     }};
@@ -206,9 +213,9 @@ macro_rules! with_storable {
 }
 
 pub fn type_name_of(ty: std::any::TypeId) -> Option<&'static str> {
-    const NAMES: [&str; 20] = [
+    const NAMES: [&str; 22] = [
         "L0", "L1", "L2", "L3", "L4", "L5", "L6", "L7", "N0", "N1", "N2", "N3", "N4", "N5", "DL0", "DL1", "DL2",
-        "RL0", "RL1", "S0",
+        "RL0", "RL1", "S0", "AL0", "AL2",
     ];
     for n in NAMES {
         let id = with_storable!(n, T => std::any::TypeId::of::<T>(), continue);
@@ -221,9 +228,9 @@ pub fn type_name_of(ty: std::any::TypeId) -> Option<&'static str> {
 
 /// `"TypeId(0x..)"` (hook output) -> table name
 pub fn type_name_of_debug(dbg: &str) -> Option<&'static str> {
-    const NAMES: [&str; 20] = [
+    const NAMES: [&str; 22] = [
         "L0", "L1", "L2", "L3", "L4", "L5", "L6", "L7", "N0", "N1", "N2", "N3", "N4", "N5", "DL0", "DL1", "DL2",
-        "RL0", "RL1", "S0",
+        "RL0", "RL1", "S0", "AL0", "AL2",
     ];
     for n in NAMES {
         let id = with_storable!(n, T => std::any::TypeId::of::<T>(), continue);
@@ -260,6 +267,22 @@ pub fn run_script(cache: AnyCache, script: &Value) -> Result<Value, BoxedError> 
                 match cache.raw_source().read(id, ext) {
                     Ok(c) => obs.push(json!({"o":"bytes","c":content_json(c.as_ref())})),
                     Err(_) => obs.push(json!({"o":"err"})),
+                }
+            }
+            "readreq" => {
+                let ext = ins["ext"].as_str().unwrap_or("");
+                match cache.raw_source().read(id, ext) {
+                    Ok(c) => obs.push(json!({"o":"bytes","c":content_json(c.as_ref())})),
+                    Err(_) => return Err(Box::new(ScriptError)),
+                }
+            }
+            "try" => {
+                // the load itself catches a panic of its body and goes on
+                let r = std::panic::catch_unwind(std::panic::AssertUnwindSafe(|| run_script(cache, &ins["body"])));
+                match r {
+                    Ok(Ok(v)) => obs.push(json!({"o":"val","v":v})),
+                    Ok(Err(e)) => return Err(e),
+                    Err(_) => obs.push(json!({"o":"caught"})),
                 }
             }
             "readdir" => match entries_json(cache, id) {
